@@ -37,6 +37,7 @@ import (
 	"github.com/oxia-db/oxia/server/wal"
 
 	"verif/harness/internal/hx"
+	"verif/harness/internal/kvsafe"
 )
 
 const gateTimeout = 150 * time.Millisecond
@@ -366,7 +367,7 @@ func runScenario(o *hx.Out, sc scenario, tmpRoot string, idx int) {
 		g.holdAt[h] = true
 	}
 	g.cbHold = sc.earlyAck
-	kvInner, err := kv.NewPebbleKVFactory(&kv.FactoryOptions{InMemory: true, CacheSizeMB: 1, DataDir: dir + "/db"})
+	kvInner, err := kvsafe.New(&kv.FactoryOptions{InMemory: true, CacheSizeMB: 1, DataDir: dir + "/db"})
 	hx.Must(err)
 	var kvf kv.Factory = kvInner
 	if sc.applyGate {
